@@ -46,6 +46,8 @@ type State struct {
 	dead    bool // path condition known false
 	// ghost event trace (stream checks): list of events appended by assumed contracts
 	trace []string
+	// assumed elemsat facts (statements about buffer snapshots), instantiated when another elemsat is proved
+	elemFacts []elemFact
 }
 
 var objCtr int
@@ -63,7 +65,7 @@ func (s *State) clone() *State {
 	for k, v := range s.globals {
 		g[k] = v
 	}
-	return &State{heap: h, pc: s.pc, globals: g, dead: s.dead, trace: append([]string{}, s.trace...)}
+	return &State{heap: h, pc: s.pc, globals: g, dead: s.dead, trace: append([]string{}, s.trace...), elemFacts: s.elemFacts}
 }
 
 func (s *State) assume(t *Term) {
